@@ -66,7 +66,7 @@ fn main() {
         }
     }
     out::silence_panics();
-    if matches!(a.prop.as_str(), "C11F" | "C12" | "C13" | "C14" | "C16" | "C17" | "C18") {
+    if matches!(a.prop.as_str(), "C11F" | "C12" | "C13" | "C14" | "C16" | "C17" | "C18" | "C19") {
         // arm the trap-and-emulate CPU before any code of the check runs (an optimiser may move `pure` asm blocks)
         simcpu::init();
     }
